@@ -58,7 +58,14 @@ def gen(rng):
     return {"kind": kind, "subs": subs, "end": rng.choice(["shutdown", "shutdown_nowait", "drop", "drop", "exit"]), "drop_delay": rng.choice([0, 0, 1, 2]),
             "manual": rng.random() < 0.6,
             # a cancel-on-shutdown layer on top (no thread of its own, but it keeps a set of the futures it returned)
-            "cos": rng.random() < 0.3}
+            "cos": rng.random() < 0.3,
+            # the user keeps the finished / cancelled future OBJECTS (not their callables, arguments, results) while dropping
+            # the executor: a done future must not keep its executor - and so the worker thread - alive
+            "keep_done": rng.random() < 0.35,
+            # interpreter exit with further executors around: one the user dropped without shutdown while its poll thread is busy
+            # (the hook's wake-up lets that thread finish its iteration and the executor is reclaimed WHILE the hook is still
+            # walking its list of events), and one created after it, which must be woken all the same
+            "exit_others": rng.random() < 0.5}
 
 
 def execute(p, chooser):
@@ -137,11 +144,16 @@ def execute(p, chooser):
             obs["outs"][s] = futs[s]._state
         # the user drops everything that belongs to finished futures; the executor lives on
         keep = {s: futs[s] for s in pend}
+        # (not the failed ones: an exception object keeps its traceback, and through the frames' f_back chain whatever called the
+        # callable - with an inline delegate that is the executor's own loop: Python's doing, and the user's to break)
+        kept_done = [futs[s] for s in want if futs[s]._state != "FINISHED" or futs[s]._exception is None] if p.get("keep_done") else []
+        kept_ids = set(id(f) for f in kept_done)
+        kept_subs = set(s for s in want if id(futs[s]) in kept_ids)
         for s in want:
             del futs[s]
         gc.collect()
         for s in want:
-            obs["dead"][s] = {k2: (r() is None) for k2, r in refs[s].items()}
+            obs["dead"][s] = {k2: (r() is None) for k2, r in refs[s].items() if not (s in kept_subs and k2 in ("fut", "res"))}
         if DEBUG:
             import types
             for s in want:
@@ -176,8 +188,31 @@ def execute(p, chooser):
             det.wait_until(lambda: worker.done or det.S.now > 200)
             obs["thread_done"] = worker.done
         elif end == "exit":
+            others = []
+            if p.get("exit_others"):
+                with det.atomic():
+                    exa = Executors.with_poll(Executors.sync(), lambda ds: busy_poll(ds), default_interval=1)
+                    eva = weakref.ref(exa._poll_event)
+
+                def busy_poll(ds):
+                    # stays inside the poll function (holding its executor) until the hook has woken THIS executor
+                    det.wait_until(lambda: eva() is None or eva().flag)
+                wa = [t for t in det.S.threads.values() if t.name.startswith("PollExecutor-")][-1]
+                det.wait_until(lambda: wa.blocked_on is not None)       # inside the poll function, holding its executor
+                del exa
+                with det.atomic():
+                    exb = Executors.with_retry(Executors.sync(), max_attempts=2, sleep=1)
+                    exc = Executors.with_throttle(Executors.sync(), 1)
+                wb = [t for t in det.S.threads.values() if t.name.startswith("RetryExecutor-")][-1]
+                wc = [t for t in det.S.threads.values() if t.name.startswith("ThrottleExecutor-")][-1]
+                others = [("dropped-busy", wa), ("later-retry", wb), ("later-throttle", wc)]
             t0 = det.S.now
+            obs["exit_t0"] = t0
             mevent.GLOBAL_HANDLER.on_exiting()
+            if others:
+                det.wait_until(lambda: all(w.done for (_, w) in others) or det.S.now > t0)
+                obs["exit_others_late"] = [nm for (nm, w) in others if not w.done]
+                det.wait_until(lambda: all(w.done for (_, w) in others) or det.S.now > 200)
             # the hook itself must make the worker leave: not a fallback timer that happens to expire later
             det.wait_until(lambda: worker.done or det.S.now > t0)
             obs["exit_prompt"] = worker.done
@@ -207,6 +242,7 @@ def execute(p, chooser):
             det.wait_until(lambda: worker.done or det.S.now > 300)
             obs["thread_done"] = worker.done
             obs["executor_dead"] = exref() is None
+        del kept_done
         stop["v"] = True
 
     r = det.run(chooser, main)
@@ -242,6 +278,14 @@ def monitor(r, obs):
     if obs.get("shutdown_dt") and obs["thread_done"]:
         out.append({"what": "after %s the worker only left when a later timer expired, not when shutdown() woke it" % p["end"],
                     "detail": str(p), "pattern": "reclaim:shutdown-late:" + p["kind"]})
+    if obs.get("exit_t0") is not None and p.get("exit_others"):
+        # decided on the history: a worker that left at a LATER virtual time than the hook ran was released by a timer
+        late = sorted(set(th for (th, op, o, v, ts) in r.log if op == "thread.exit" and th.startswith(tuple(PREFIX.values())) and ts > obs["exit_t0"]))
+        if late and not obs.get("exit_others_late"):
+            obs["exit_others_late"] = late
+    if obs.get("exit_others_late"):
+        out.append({"what": "the exit hook returned but the worker threads of other live executors (%s) were not woken by it" % obs["exit_others_late"],
+                    "detail": str(p), "pattern": "reclaim:exit-late:others"})
     if obs.get("exit_prompt") is False and obs["thread_done"]:
         out.append({"what": "the exit hook returned but the worker thread only left when a later timer expired", "detail": str(p),
                     "pattern": "reclaim:exit-late:" + p["kind"]})
